@@ -15,7 +15,7 @@ import asyncio
 import hashlib
 
 from .. import env, tlc
-from ..engine import EngineScenario, merge, ms
+from ..engine import EngineScenario, NoConnection, merge, ms
 from ..simnet import SIM_ADDR
 from .c06 import CFG, consts, clause_for
 
@@ -288,8 +288,13 @@ def run(ctx):
     n = 16 if ctx.quick else 300
     for i in range(n):
         # every third scenario runs on an event loop that occasionally stalls (logged, see TStall)
-        logs.append(scenario(rng, ["stable", "perm", "reverse", "seeded"][i % 4], stalls=(i % 3 == 2),
-                             flood=(rng.choice([70, 100]) if i % 8 == 4 else 0), starve=(i % 8 == 6)))
+        try:
+            logs.append(scenario(rng, ["stable", "perm", "reverse", "seeded"][i % 4], stalls=(i % 3 == 2),
+                                 flood=(rng.choice([70, 100]) if i % 8 == 4 else 0), starve=(i % 8 == 6)))
+        except NoConnection as e:
+            # before any junk was injected: the handshake's datagrams did not reach the consumers they were for
+            ctx.violation({"clause": "connection-cannot-be-established-on-a-fault-free-network"}, {"what": str(e)})
+            break
     for lg in logs:
         if lg["delivered"] != lg["puts"]:
             ctx.violation({"clause": "received-datagram-never-entered-the-queue"},
